@@ -11,6 +11,7 @@
  *   t named <name> <len>       mpt_named_traits(name, len)       (len may be negative)
  *   t alias <text>             mpt_alias_typeid(text, &end)
  *   t int <size> | t uint <size>       mpt_type_int / mpt_type_uint
+ *   t mcode <type> | t mtype <fmt> | t msize <fmt>   mpt_msgvalfmt_code / _typeid / _size (wire format of the scalar types)
  *   t sweep                    every id 0..0x1100: traits, and the named entries of the interface/metatype ranges
  *   t size <id>                traits->size of a built-in id next to the compiler's sizeof of the C type it stands for
  *   t abi                      compile-time sizes the model assumes
@@ -24,6 +25,7 @@
 #include "object.h"
 #include "array.h"
 #include "event.h"
+#include "message.h"
 
 #define SWEEP_MAX 0x1100
 
@@ -126,8 +128,6 @@ static void op_sweep(void)
 	printf("R traits=");
 	for (long id = 0; id <= SWEEP_MAX + 1; id++) {
 		const MPT_STRUCT(type_traits) *t = id <= SWEEP_MAX ? mpt_type_traits((mpt_type_t) id) : 0;
-		/* TypeBufferPtr and TypeVector are listed by `t size`/`t traits` only (known findings: no traits) */
-		if (id == MPT_ENUM(TypeBufferPtr) || id == MPT_ENUM(TypeVector)) t = 0;
 		cur.have = t != 0; cur.size = t ? t->size : 0; cur.init = t && t->init; cur.fini = t && t->fini;
 		if (id == 0 || !attr_eq(&cur, &run)) {
 			if (id) put_run(start, id - 1, &run, &first);
@@ -278,6 +278,19 @@ int main(void)
 		else if ((!strcmp(op, "int") || !strcmp(op, "uint")) && drv_nw == 3) {
 			if (parse_int(drv_w[2], &a) || a < 0) { puts("bad-op"); continue; }
 			printf("R code=%d | C - | I -\n", *op == 'i' ? mpt_type_int((size_t) a) : mpt_type_uint((size_t) a));
+		}
+		else if (!strcmp(op, "mcode") && drv_nw == 3) {
+			if (parse_int(drv_w[2], &a)) { puts("bad-op"); continue; }
+			printf("R code=%d | C - | I -\n", mpt_msgvalfmt_code((int) a));
+		}
+		else if (!strcmp(op, "mtype") && drv_nw == 3) {
+			if (parse_int(drv_w[2], &a) || a < 0 || a > 255) { puts("bad-op"); continue; }
+			int r = mpt_msgvalfmt_typeid((uint8_t) a);
+			if (r < 0) printf("R refused | C - | I err=%s\n", drv_errname(r)); else printf("R type=%d | C - | I -\n", r);
+		}
+		else if (!strcmp(op, "msize") && drv_nw == 3) {
+			if (parse_int(drv_w[2], &a) || a < 0 || a > 255) { puts("bad-op"); continue; }
+			printf("R size=%zu | C - | I -\n", mpt_msgvalfmt_size((uint8_t) a));
 		}
 		else if (!strcmp(op, "sweep") && drv_nw == 2) op_sweep();
 		else if (!strcmp(op, "size") && drv_nw == 3) {
